@@ -59,7 +59,9 @@ pub(crate) enum StatFallbackName {
 impl StatBuilder {
     pub(crate) fn build(&self, name_builder: &mut NameBuilder) -> write_stat::Stat {
         let elided_fallback_name_id = match &self.name {
-            StatFallbackName::Id(id) if name_builder.contains_id(*id) => *id,
+            // reserved ids such as 2 are normally not defined in the FEA, but in
+            // the font that this table gets added to.
+            StatFallbackName::Id(id) if id.is_reserved() || name_builder.contains_id(*id) => *id,
             StatFallbackName::Id(id) => {
                 panic!("ElidedFallbackNameID '{id}' does not exist in font")
             }
